@@ -48,6 +48,7 @@ pub fn run(case_json: &str) -> ! {
         }
     }));
     sched::init(fam.max_steps);
+    sched::start_watchdog();
     if fam.runtime {
         warm_up(case.workers.max(1) as usize, case.pool.max(1) as usize);
     }
